@@ -132,7 +132,8 @@ CHECKS = {
          "Several alphabets explored to a fixpoint (depth 14-18) and the design's full alphabet to its depth bound on the unmodified HOST_BUILD sercomm.c "
          "linked with the tree's msgb.c/talloc.c under ASan/UBSan; every payload of length 0-2 over all 256 octet values, lengths 3-6(7) over the "
          "special-octet alphabet and the boundary lengths 2045-2048 on all 128 DLCIs; 56 160 resync scenarios (over-long frames x noise x following "
-         "frames); wire rules checked on every pulled octet.",
+         "frames); handlers registered on subsets of the DLCIs, 255-512 message backlogs, and 1-3 discarded frames of up to 2047 octets to a "
+         "handler-less DLCI followed by a long frame to a registered one; wire rules checked on every pulled octet.",
          "Sequential use only (interrupt-level atomicity on the ARM target is out of reach); states compared by 128-bit fingerprint; DLCI 128 echo modelled as re-queue.",
          "DESIGN.md 2/C06", "cbuild"),
  "C08": ("model_checking",
